@@ -16,15 +16,18 @@ def gen_model(rng):
     kind = rng.choice(["pair", "pair", "eam", "fs", "table"])
     secs = []
     target = {"pair": rng.choice(["LAMMPS", "GULP", "DL_POLY"]), "table": "LAMMPS", "eam": rng.choice(["setfl", "DL_POLY_EAM"]), "fs": rng.choice(["setfl_fs", "DL_POLY_EAM_fs"])}[kind]
-    tab = [["target", target], ["cutoff", "4.0"], ["nr", "8"]]
+    # any two of nr / dr / cutoff (and of nrho / drho / cutoff_rho); the target may be left to its default for pair models:
+    # a section that does NOT give a key is where an unrelated variable of that name could leak in
+    tab = [] if (kind == "pair" and target == "LAMMPS" and rng.random() < 0.5) else [["target", target]]
+    tab += rng.choice([[["cutoff", "4.0"], ["nr", "8"]], [["cutoff", "3.5"], ["dr", "0.5"]], [["nr", "8"], ["dr", "0.5"]]])
     if kind in ("eam", "fs"):
-        tab += [["cutoff_rho", "2.5"], ["nrho", "6"]]
+        tab += rng.choice([[["cutoff_rho", "2.5"], ["nrho", "6"]], [["cutoff_rho", "2.5"], ["drho", "0.5"]], [["nrho", "6"], ["drho", "0.5"]]])
     secs.append(["Tabulation", tab])
     if kind in ("pair", "table"):
         pair = [["A-B", "as.buck 1000.0 0.3 32.0"], ["B-B", "sum(as.bornmayer 500.0 0.25, as.constant 1.5)"], ["A-A", "myform 2.5 0.75"]]
         if kind == "table":
             pair.append(["O-O", ">=0 tab1"])
-            secs.append(["Table-Form:tab1", [["x", "0.0 1.0 2.0 3.0 4.0"], ["y", "8.0 4.0 2.0 1.0 0.5"]]])
+            secs.append(["Table-Form:tab1", rng.choice([[["x", "0.0 1.0 2.0 3.0 4.0"], ["y", "8.0 4.0 2.0 1.0 0.5"]], [["xy", "0.0 8.0 1.0 4.0 2.0 2.0 3.0 1.0 4.0 0.5"]]])])
         secs.append(["Pair", pair])
         secs.append(["Potential-Form", [["myform(r, a, b)", "a*exp(-r/b) + 0.125"]]])
     else:
@@ -58,18 +61,29 @@ def templatise(rng, secs):
                         vn = "v%d" % len(vars_)
                         if rng.random() < 0.3:
                             vn = rng.choice(["rho_Al", "A_param", "my var", "nr2", "cut off"]) + str(len(vars_))
-                        vars_.append([vn, m.group(0)])
+                        if rng.random() < 0.3:
+                            # chained: the variable is defined through another variable (one or two levels; by name or as ${Variables:NAME})
+                            inner = "w%d" % len(vars_)
+                            vars_.append([inner, [["lit", m.group(0)]]])
+                            if rng.random() < 0.3:
+                                mid = "u%d" % len(vars_)
+                                vars_.append([mid, [["ref", inner]]])
+                                inner = mid
+                            vars_.append([vn, [["ref", inner]] if rng.random() < 0.6 else [["xref", "Variables", inner]]])
+                        else:
+                            vars_.append([vn, [["lit", m.group(0)]]])
                         parts.append(["ref", vn])
                     else:
                         # a cross reference to another option whose text is exactly a number is used only when it equals the literal: otherwise lift into a variable
                         vn = "x%d" % len(vars_)
-                        vars_.append([vn, m.group(0)])
+                        vars_.append([vn, [["lit", m.group(0)]]])
                         parts.append(["xref", "Variables", vn])
                     pos = m.end()
             parts.append(["lit", v[pos:]])
             nkvs.append([k, [p for p in parts if p[1] != "" or p[0] != "lit"] or [["lit", ""]]])
         out.append([name, nkvs])
-    unused = [[n, val] for n, val in [("A-B", "as.zero"), ("nr", "3"), ("Al", "as.zero"), ("f(r,a)", "a*r"), ("unused", "1.0"), ("Al->Al", "x"), ("target", "GULP"), ("x", "1 2 3")] if rng.random() < 0.4]
+    unused = [[n, [["lit", val]]] for n, val in [("A-B", "as.zero"), ("nr", "3"), ("Al", "as.zero"), ("f(r,a)", "a*r"), ("unused", "1.0"), ("Al->Al", "x"), ("target", "GULP"), ("x", "1 2 3"),
+                                                         ("dr", "0.25"), ("cutoff", "7.0"), ("nrho", "9"), ("drho", "0.1"), ("cutoff_rho", "9.0"), ("y", "1 1 1"), ("xy", "0 1 1 2"), ("interpolation", "cubic_spline")] if rng.random() < 0.3]
     return out, vars_, unused
 
 
@@ -80,7 +94,7 @@ def part_text(p):
 def render(tsecs, variables):
     t = ""
     if variables:
-        t += "[Variables]\n" + "".join("%s : %s\n" % (k, v) for k, v in variables) + "\n"
+        t += "[Variables]\n" + "".join("%s : %s\n" % (k, "".join(part_text(p) for p in v)) for k, v in variables) + "\n"
     for name, kvs in tsecs:
         t += "[%s]\n" % name
         for k, parts in kvs:
@@ -106,7 +120,7 @@ def check(run):
         kind, secs = gen_model(rng)
         tsecs, variables, unused = templatise(rng, secs)
         cases.append((kind, secs, tsecs, variables, unused))
-    reqs = [dict(m="interp", op="resolve", sections=[[n, [[k.replace(" ", ""), parts] for k, parts in kvs]] for n, kvs in tsecs], vars=[[k.replace(" ", ""), [["lit", v]]] for k, v in variables + unused])
+    reqs = [dict(m="interp", op="resolve", sections=[[n, [[k.replace(" ", ""), parts] for k, parts in kvs]] for n, kvs in tsecs], vars=[[k.replace(" ", ""), v] for k, v in variables + unused])
             for (kind, secs, tsecs, variables, unused) in cases]
     models = lean_query(reqs)
     nb = 0
